@@ -201,8 +201,43 @@ def run(ctx):
         if m is not None:
             if m.get("required") != req or m.get("values") != vals:
                 diffs.append({"case": case, "impl": {"required": req, "values": vals}, "model": m})
+    # one Rule object used for several nodes in a row (a caller may keep the object get_rule() gave it): every validation answers
+    # as a fresh object would - nothing is consumed or left behind by an earlier call
+    reuse = 0
+    for rn in ri.rule_names():
+        aspec = ri.rules[rn][0]
+        if not aspec:
+            continue
+        seqs_ = [a for a in itertools.islice(cases_for_rule(ri, rn, ctx), 12)]
+        if len(seqs_) < 2:
+            continue
+        r = rulemod.Rule(rn)
+        for rep in range(2):
+            for attrs in (seqs_ if rep == 0 else list(reversed(seqs_))):
+                impl.reset()
+                n = Node(ri.elem_for(rn) or "zzUnmapped")
+                impl.set_content(n, ri.valid_content(rn))
+                for k, v in attrs:
+                    n.add_attribute(k, v)
+                for kn in ri.valid_kids(rn):
+                    c = Node(kn); n.children.append(c); c.parent = n
+                errs = []
+                try:
+                    r.validate_rule(n, errs)
+                    got = set()
+                    for e in errs:
+                        if e[0].name in impl.ATTR_CODES:
+                            got.add((e[0].name, e[3]))
+                except Exception as ex:
+                    got = {("raised", type(ex).__name__)}
+                viol = spec_oracle(aspec, {k: v for k, v in attrs})
+                reuse += 1
+                if got != viol:
+                    fails.append({"case": {"rule": rn, "attrs": attrs, "same_rule_object_reused": True},
+                                  "what": f"rule {rn}, a Rule object used for several nodes: attrs {attrs} reported {sorted(got)}, violated constraints are {sorted(viol)}"})
+                    break
     return {
-        "evaluations": len(cases) + len(intro),
+        "evaluations": len(cases) + len(intro) + reuse,
         "distinct_nontrivial": len(seen),
         "rule": "for every rule: product (or one-at-a-time + random combinations when the product exceeds the limit) of "
                 "{absent, each listed value, unlisted variants} per declared attribute, x {no foreign, foreign last, foreign first}; "
